@@ -772,7 +772,26 @@ def history_case(ctx, seed):
         diff_live(a, build_schema(gs.to_sdl(d)))
         return diff_live(a, transform_schema(a, Hide()))
 
-    for name, fl in (("diff-then-edit", flow_diff_then_edit), ("use-clone-edit", flow_use_clone_edit), ("visibility-transform", flow_transform)):
+    def flow_inplace_visitor():
+        # the two schema OBJECTS are diffed, then `b` is edited IN PLACE by a public visitor (type objects are
+        # replaced inside the same Schema), then the same two objects are diffed again
+        from py_gql.schema.transforms import VisibilitySchemaTransform
+
+        class Hide(VisibilitySchemaTransform):
+            def is_field_visible(self, typename, fieldname):
+                return not (typename == t["name"] and fieldname == victim)
+        a, b = build_schema(gs.to_sdl(d)), build_schema(gs.to_sdl(d))
+        first = diff_live(a, b)
+        if first:
+            return first
+        b2 = Hide().on_schema(b)
+        got = diff_live(a, b2)
+        if b2 is not b:
+            return got
+        return got if got == diff_live(a, b) else [("same-objects-second-diff-differs", 0, "")]
+
+    for name, fl in (("diff-then-edit", flow_diff_then_edit), ("use-clone-edit", flow_use_clone_edit), ("visibility-transform", flow_transform),
+                     ("diff-then-inplace-visitor", flow_inplace_visitor)):
         try:
             got = fl()
         except Exception as e:  # noqa
@@ -783,6 +802,80 @@ def history_case(ctx, seed):
             missing = [c for c in reference if c not in got]
             fails.append(("history-dependent:%s" % name,
                           "diff after %s differs from the diff of freshly built schemas; missing %s" % (name, missing[:2])))
+    fails += derived_cases(ctx, rng, d)
+    return fails
+
+
+def derived_cases(ctx, rng, d):
+    """Schemas DERIVED through the public visitor / transform API must diff like the same schema built from its
+    own printed SDL: diff(D, rebuilt D) and diff(rebuilt D, D) report nothing ("structurally equal"), and
+    diff(source, D) == diff(source, rebuilt D). The visitors below rename / drop / retype ARGUMENTS by name
+    (field arguments and directive arguments alike), which is what camel-casing and visibility transforms do."""
+    import copy as _copy
+    from py_gql import build_schema
+    from py_gql.schema import NonNullType, SchemaVisitor
+    from py_gql.schema.transforms import transform_schema
+    fails = []
+    names = sorted({a["name"] for dd in d["directives"] for a in dd["args"]}) * 2 \
+        + sorted({a["name"] for t in d["types"] for f in t.get("fields", []) for a in (f.get("args") or [])})
+    if not names:
+        ctx.stat("derived-skipped:no-arguments")
+        return fails
+    target = rng.choice(names)
+
+    class Rename(SchemaVisitor):
+        def on_argument(self, argument):
+            if argument.name != target:
+                return argument
+            c = _copy.copy(argument)
+            c.name = target + "Renamed"
+            return c
+
+    class Drop(SchemaVisitor):
+        def on_argument(self, argument):
+            return None if argument.name == target else argument
+
+    class Require(SchemaVisitor):
+        def on_argument(self, argument):
+            if argument.name != target or isinstance(argument.type, NonNullType):
+                return argument
+            c = _copy.copy(argument)
+            c.type = NonNullType(argument.type)
+            return c
+
+    try:
+        a = build_schema(gs.to_sdl(d))
+    except Exception as e:  # noqa
+        ctx.stat("derived-skipped:" + type(e).__name__)
+        return fails
+    for vname, V in (("rename-argument", Rename), ("drop-argument", Drop), ("require-argument", Require)):
+        try:
+            D = transform_schema(a, V())
+            D.validate()
+            R = build_schema(D.to_string())
+            fresh = diff_live(R, build_schema(D.to_string()))
+        except Exception as e:  # noqa  (the derivation is not applicable to this schema)
+            ctx.stat("derived-skipped:%s:%s" % (vname, type(e).__name__))
+            continue
+        if fresh:  # the printer / builder round trip itself is not exact on this schema: not this property's business
+            ctx.stat("derived-skipped:%s:print-roundtrip-not-exact" % vname)
+            continue
+        ctx.stat("derived:" + vname)
+        ctx.nontrivial(("derived", vname, target, len(d["types"])))
+        try:
+            e1, e2 = diff_live(D, R), diff_live(R, D)
+            g1, g2 = diff_live(a, D), diff_live(a, R)
+        except Exception as e:  # noqa
+            fails.append(("differ-raises-on-derived:%s:%s" % (vname, type(e).__name__), repr(e)))
+            continue
+        if e1 or e2:
+            fails.append(("derived-equal-schemas-diff-nonempty:%s" % vname,
+                          "a schema derived by %s and the same schema rebuilt from its SDL are structurally equal but the diff reports %s"
+                          % (vname, (e1 or e2)[:2])))
+        if g1 != g2:
+            fails.append(("derived-diff-differs:%s" % vname,
+                          "diff(source, derived) differs from diff(source, derived rebuilt from its SDL): only one side has %s"
+                          % ([c for c in g1 if c not in g2][:2] + [c for c in g2 if c not in g1][:2])))
     return fails
 
 
